@@ -960,6 +960,12 @@ class Machine(object):
                     corr.set_range((100.0, 3000.0))
                 else:
                     corr.set_range((float(r[0]) - 25.0, float(r[1]) + 125.0))
+            elif how == 'set_range_without_tref':
+                # legal for a correlation without a heat-capacity table: the
+                # range need not contain the reference temperature
+                if not corr.ND_Cp_data:
+                    t = float(corr.T_ref)
+                    corr.set_range((t + 1.85, max(t + 500.0, 1500.0)))
             elif how == 'del_Cp_point':
                 ts = sorted(corr.ND_Cp_data or {})
                 if ts:
@@ -1063,7 +1069,8 @@ def conflict_candidates(aw, f):
 
 
 MUTATIONS = ['del_H', 'del_S', 'set_range', 'del_Cp_point', 'del_Cp_all',
-             'update_from_other', 'update_rejected', 'update_rejected']
+             'update_from_other', 'update_rejected', 'update_rejected',
+             'set_range_without_tref']
 
 
 sg_block_kinds = ('molar enthalpy', 'molar entropy', 'molar heat capacity',
